@@ -2,8 +2,11 @@
 
 from __future__ import annotations
 
+import ctypes
 import gc
 import json
+import os
+import sys
 import time
 from collections import Counter
 
@@ -13,6 +16,7 @@ VISIBLE = {
     "hot": ("compile/_cffi_ownership.py", "compile/_tensor_method.py", "compile/_porcelain.py"),
     "core": ("tensora/compile/", "tensora/tensor.py", "tensora/problem.py"),
     "core+weakref": ("tensora/compile/", "tensora/tensor.py", "tensora/problem.py", "/weakref.py"),
+    "codegen": ("tensora/compile/", "tensora/codegen/"),
     "all": ("tensora/", "/weakref.py", "/functools.py"),
 }
 
@@ -31,6 +35,9 @@ SCENARIOS = {
     "S3w-diff-warm": (["add", "mul"], "warm", "llvm"),
     "S6-eval-vs-drop": (["add", "DROP"], "warm", "llvm"),
     "S5-three-mixed": (["add", "mul", "dot"], "mixed", "llvm"),
+    # a kernel with growable (int + double) arrays compiled next to one whose only allocation is double
+    "S7-sparse-dense-cold": (["add", "addd"], "cold", "llvm"),
+    "S7r-dense-sparse-cold": (["addd", "add"], "cold", "llvm"),
     "S4-cffi-cold": (["add", "mul"], "cold", "cffi"),
     "S4w-cffi-warm": (["add", "add"], "warm", "cffi"),
 }
@@ -69,6 +76,15 @@ class Scenario:
             if cname != "DROP":
                 self.expected[k] = self.observe(self.call(cname, k))
         self.holder = []
+        # guard zones behind kernel allocations, when the interposer is preloaded (see native/shim.c)
+        self.shim = None
+        try:
+            shim = ctypes.CDLL(None)
+            shim.verif_guard(1)
+            self.shim = shim
+            self.overflows_seen = shim.verif_guard_check()
+        except AttributeError:
+            pass
 
     def call(self, cname, k=0):
         expr, fmt = CALLS[cname]
@@ -120,6 +136,11 @@ class Scenario:
                 probs.append(f"thread {tid} ({cname}) returned {res[1]} instead of the sequential {self.expected[tid]}")
             elif res[1][1]:
                 probs.append(f"thread {tid} ({cname}) result is not well-formed: {res[1][1]}")
+        if self.shim is not None:
+            n = self.shim.verif_guard_check()
+            if n != self.overflows_seen:
+                probs.append(f"{n - self.overflows_seen} array(s) allocated by a kernel were written past their end")
+                self.overflows_seen = n
         return probs
 
 
@@ -229,6 +250,18 @@ def trace_file(unit):
     return os.path.join(d, f"{unit['scenario']}_{unit['visible'].replace('+', '_')}_{unit['bound']}_{unit['part']}.last")
 
 
+def preload_shim():
+    """Workers (spawned) and replays run with the malloc interposer preloaded: blocks allocated by kernel code get
+    guard zones, so a kernel miscompiled under a schedule fails the oracle instead of silently damaging the heap."""
+    from .c13 import shim_path
+
+    so = shim_path()
+    if so not in os.environ.get("LD_PRELOAD", ""):
+        os.environ["LD_PRELOAD"] = so
+        return True
+    return False
+
+
 def plan(tier):
     """(scenario, visible, bound, parts)"""
     if tier == "quick":
@@ -241,6 +274,7 @@ def plan(tier):
             ("S2-same-cold", "core", 1, 6),
             ("S3-diff-cold", "core", 1, 6),
             ("S4-cffi-cold", "core", 1, 6),
+            ("S7-sparse-dense-cold", "codegen", 1, 16),
         ]
     return [
         ("S1-same-warm", "core+weakref", 2, 16),
@@ -254,6 +288,9 @@ def plan(tier):
         ("S4-cffi-cold", "core", 1, 8),
         ("S4w-cffi-warm", "core", 2, 8),
         ("S2-same-cold", "all", 1, 16),
+        ("S7-sparse-dense-cold", "all", 1, 16),
+        ("S7r-dense-sparse-cold", "codegen", 1, 16),
+        ("S3-diff-cold", "codegen", 1, 16),
     ]
 
 
@@ -268,6 +305,7 @@ def run(tier, seed):
     executions = points = preempted = 0
     outcomes = 0
     capped = False
+    preload_shim()
     for unit, (status, res) in zip(units, run_pool("vx.checks.c14", "work", units, task_timeout=7200), strict=True):
         if status == "skipped":
             continue
@@ -297,6 +335,7 @@ def run(tier, seed):
             else:
                 run.counters[k] += v
         run.report_all(res["findings"])
+    os.environ.pop("LD_PRELOAD", None)
     run.sample({"scenario": "S3w-diff-warm", "threads": ["evaluate a(i) = b(i) + c(i)", "evaluate a(i) = b(i) * c(i)"],
                 "schedule": "choice sequence, e.g. [0]*137 + [1] = preempt thread 0 at its 138th scheduling point",
                 "oracle": "each thread's raw result arrays equal the sequential result; no exception/deadlock/hang"})
@@ -330,6 +369,8 @@ def replay(path):
         rec = json.load(f)
     case = rec["case"]
     name = case["scenario"]
+    if preload_shim():
+        os.execv(sys.executable, [sys.executable, "-m", "vx.main", "C14", "--replay", path])
     lock = None
     if case.get("backend") == "cffi":
         import tensora.compile._compile_cffi as cc
